@@ -30,7 +30,7 @@ SHAPES2 = ["flat2", "and2", "or2"]
 
 
 # ------------------------------------------------------------------ class space ------------------------------------
-def req_options(n):
+def req_options(n, shapes2=tuple(SHAPES2)):
     out = [None]
     for o in range(n):
         others = [i for i in range(n) if i != o]
@@ -38,7 +38,7 @@ def req_options(n):
             for sh in SHAPES1:
                 out.append([o, sh, [f]])
         for f, g in itertools.combinations(others, 2):
-            for sh in SHAPES2:
+            for sh in shapes2:
                 out.append([o, sh, [f, g]])
     return out
 
@@ -64,11 +64,11 @@ def participating(n, req, xor):
     return len(used) == n
 
 
-def class_specs(n, mands=(False,), sorted_types=False, all_participate=False):
+def class_specs(n, mands=(False,), sorted_types=False, all_participate=False, shapes2=tuple(SHAPES2)):
     for types in itertools.product("BIS", repeat=n):
         if sorted_types and list(types) != sorted(types):
             continue
-        for req in req_options(n):
+        for req in req_options(n, shapes2):
             for xor in xor_options(n):
                 if all_participate and not participating(n, req, xor):
                     continue
@@ -99,8 +99,8 @@ def plan(thorough):
         ("n3", 3, dict(mands=(False, True)), "accepts", None),
         ("n3-sorted-types", 3, dict(sorted_types=True), "distinct", "picks"),
         ("n4-sorted-types-every-field-in-a-rule", 4, dict(sorted_types=True, all_participate=True), "distinct", None),
-        ("n5-sorted-types-every-field-in-a-rule-python-only", 5, dict(sorted_types=True, all_participate=True), "distinct",
-         None),
+        ("n5-sorted-types-every-field-in-a-rule-python-only", 5,
+         dict(sorted_types=True, all_participate=True, shapes2=("and2", "or2")), "distinct", None),
     ]
 
 
@@ -256,7 +256,8 @@ def run(ctx):
         "differ: the statement speaks of requirement sets, not of the syntax (pydra parses it as f OR g)",
         "False stored in an `int | None` field (bool is an int) may be read as set or not set independently at each use",
         "for n >= 4 only type tuples in sorted order and classes in which every field takes part in a rule are enumerated "
-        "(n = 5: python classes only -- the rule check is the shared base-class method); only f0 can be mandatory (n <= 3)",
+        "(n = 5: python classes only -- the rule check is the shared base-class method -- and without the ambiguous flat "
+        "two-name list); only f0 can be mandatory (n <= 3)",
         "the public submission seam is evaluated exhaustively for n <= 2 and on one case per (class, verdict, deciding "
         "rules) for the n = 3 family of the thorough tier; everywhere else the seam is Task._check_rules, the call the "
         "submitter makes first",
